@@ -2,11 +2,13 @@
 """Writes /verif/MANIFEST.json from the per-property table below."""
 import json, os
 V = os.path.dirname(os.path.dirname(os.path.abspath(__file__)))
-CHECKS = {
- "C02": dict(text="Lean 4 theorems over an executable model of burl_normalize / buffer_urldecode_path / buffer_path_simplify / http_request_parse_target (canonical absolute path, no dot segments for every input and option set); model tied to the C by exhaustive small-scope + random differential runs under ASan/UBSan",
-             note="trusted: Lean kernel (+propext, Quot.sound), hand-written model validated by the h_url correspondence, byte-class table and flag values regenerated from burl.c/burl.h each run; TOCTOU and filesystem semantics outside the model",
-             tech="Lean 4 proof over hand-written model + differential correspondence (in-process C harness)", ref="6/C02"),
-}
+import sys, importlib, glob
+sys.path.insert(0, os.path.join(V, "tools"))
+CHECKS = {}
+for f in sorted(glob.glob(os.path.join(V, "tools", "ltv", "props", "c[0-9]*.py"))):
+    mod = importlib.import_module("ltv.props." + os.path.basename(f)[:-3])
+    if hasattr(mod, "MANIFEST"):
+        CHECKS[os.path.basename(f)[:-3].upper()] = mod.MANIFEST
 NOT_YET = {}
 def main():
     props = [json.loads(l)["id"] for l in open(os.path.join(V, "properties.jsonl"))]
